@@ -31,14 +31,15 @@ RULE = (
     'case with >= 2 doubling steps. ContinuedFraction: drawn (a, b) and fractions built from drawn '
     'coefficient lists, vs fractions.Fraction. DivmodRounded: a = q*b + (b//2 + d), |d| <= 2, and '
     'random remainders; non-trivial = remainder within 2 of b/2. Sieve: every n <= 20000 vs trial '
-    'division. Linear solver: every 1x1..3x2 matrix over {-1,0,1,2} (thorough: 3x3, 4x3) and drawn '
+    'division. Linear solver: every 1x1, 2x1, 3x1, 2x2, 3x2 matrix over {-1,0,1,2}, 4x2 over {0,1,2}, 3x3 over '
+    '{-1,0,1} (thorough: 4x2, 3x3 over {-1,0,1,2}, 4x3 over {-1,0,1}), two right-hand sides each, and drawn '
     'matrices up to 8x5 (entries -3..3) with zero rows, scaled/duplicated/combined rows, zero '
     'leading entries, zero columns, right-hand side A*x0; non-trivial = matrix has a zero or '
     'dependent row or a zero leading pivot. Small roots: RSA moduli of 128..512 (thorough ..2048) '
     'bits with roots planted below the bound inside the asserted region (must be found), random and '
     'planted polynomials with bounds up to N/2 bits and every x + c modulo every balanced semiprime '
-    '<= 899 (any returned root must be a true root); non-trivial = planted root within a factor 4 '
-    'of the bound, resp. a root was returned. PseudoAverage: every residue list with n <= 5, m <= 5 '
+    '<= 400 (thorough 899), bounds 2..4 (any returned root must be a true root); non-trivial = planted root within a factor 4 '
+    'of the bound, resp. a root was returned. PseudoAverage: every residue multiset with n <= 5, m <= 5 '
     'and drawn lists (m <= 10) vs brute force over all 2^m selections; non-trivial = the optimum '
     'shifts a proper non-empty subset. UniformSumCdf/Bias vs exact Irwin-Hall in rationals; '
     'CombinedPValue/Igamc/NormalCdf/BinomialCdf vs 420-digit series / exact sums. Distinctness by '
@@ -506,9 +507,7 @@ def _matrix_classes(a, out):
   true_rank = R.mat_rank(a)
   cls = []
   zero_row = any(all(v == 0 for v in r) for r in a)
-  dependent = true_rank < nr and true_rank < min(nr, nc) or (nr > nc) or zero_row
-  # a dependent row exists iff rank < number of rows
-  dependent = true_rank < nr
+  dependent = true_rank < nr        # a dependent row exists iff rank < number of rows
   zero_lead = any(a[i][i] == 0 for i in range(min(nr, nc)))
   if zero_row:
     cls.append('mat zero row')
@@ -943,7 +942,7 @@ def strat_sr_bimodp(tier):
 def strat_sr_trimodp(tier):
   return st.fixed_dictionaries({
       'kind': st.just('tri_modp'), 'm': material, 'N': st.sampled_from([256, 512]),
-      'fr': st.integers(12, 50)})
+      'fr': st.integers(15, 50)})
 
 
 def strat_sr_bimodn(tier):
@@ -1264,7 +1263,6 @@ def enum_usc(tier):
 
 def run_usc_grid(desc):
   n = desc['n']
-  worst = 0.0
   for i in range(0, 401, desc['step']):
     run_usc({'n': n, 'x': ['grid', i]})
   return {'nt': True, 'cls': ['usc grid n<=36' if n <= 36 else 'usc grid n>36'],
@@ -1309,7 +1307,12 @@ def run_special(desc):
     return {'nt': 0 <= k < m, 'cls': ['binom k<0' if k < 0 else 'binom k>=m' if k >= m
                                       else 'binom m ' + _bucket(m, [10, 100, 1000, 20000])]}
   # fisher
-  ps = [float.fromhex(h) for h in desc['p']]
+  if 'k' in desc:                       # long list derived from material
+    mat = Material(desc['m'], 'c19-fisher')
+    expo = (1, 1, 4, 40)[desc['mode'] % 4]
+    ps = [((1 + mat.below(1 << 53)) / float(1 << 53)) ** expo or 1.0 for _ in range(desc['k'])]
+  else:
+    ps = [float.fromhex(h) for h in desc['p']]
   if not ps:
     try:
       got = libcall(util.CombinedPValue, [], expect=(ValueError,))
@@ -1356,12 +1359,15 @@ def strat_special(tier):
                        st.floats(0, 12).map(lambda z: int(m / 2 - z * math.sqrt(m + 1)))))
     return {'fn': 'binom', 'k': k, 'm': m}
   pv = st.one_of(hexf(1e-300, 1.0), logf(-300, 0), logf(-3, 0), st.just(float.hex(1.0)))
-  kmax = 300 if tier == 'quick' else 3000
+  kmax = 1400 if tier == 'quick' else 3000
   fisher = st.fixed_dictionaries({
       'fn': st.just('fisher'),
-      'p': st.one_of(st.lists(pv, min_size=0, max_size=12), st.lists(pv, min_size=2, max_size=kmax),
+      'p': st.one_of(st.lists(pv, min_size=0, max_size=12), st.lists(pv, min_size=2, max_size=60),
                      st.lists(st.one_of(pv, st.just(float.hex(0.0))), min_size=1, max_size=6))})
-  return st.one_of(igamc, normal, binom(), fisher)
+  fisher_long = st.fixed_dictionaries({
+      'fn': st.just('fisher'), 'm': material, 'mode': st.integers(0, 3),
+      'k': st.one_of(st.integers(2, kmax), st.sampled_from([999, 1000, 1001, 1002, kmax]))})
+  return st.one_of(igamc, normal, binom(), fisher, fisher_long)
 
 
 # =============================================================================
